@@ -155,6 +155,8 @@ namespace GeographicLib {
   public:
     static int Cell(int n, int m) { return n * 100 + m; }
     static int Use(int n, int m) { return Cell(m, n); }
+    static int Inner(int v, bool extendp) { return extendp ? v : -v; }
+    static int Wrap(int v, bool exact, bool extendp) { return Inner(v, exact) + (extendp ? 1 : 0); }
     // N1: the sine/cosine are taken before the far-side reflection of lon
     static double Fold(double lon) {
       int lonsign = std::signbit(lon) ? -1 : 1;
